@@ -366,6 +366,9 @@ def obligations(tier, seed):
         "rm000": [["rm", "p", "I", "000"]],
         "add-rm111": [["add", "p", "L"], ["rm", "p", "L", "111"]],
         "rm101-add": [["rm", "p", "L", "101"], ["add", "p", "L"]],
+        # the same statement written, withdrawn and written again inside one transaction: the queue must keep order and repetitions
+        "add-rm111-add": [["add", "p", "L"], ["rm", "p", "L", "111"], ["add", "p", "L"]],
+        "rm111-add-rm111": [["rm", "p", "L", "111"], ["add", "p", "L"], ["rm", "p", "L", "111"]],
     }
     wdata = [[("p", "d", "L"), ("p", "g1", "L")], [("p", "g1", "L"), ("p", "g1", "I")]]
     for name, ops in ops_cat.items():
@@ -373,6 +376,12 @@ def obligations(tier, seed):
             for di, data in enumerate(wdata):
                 if tier == "quick" and di == 1 and view == "d":
                     continue
+                if len(ops) == 3:
+                    # three writes: one endpoint triple, in the graph written to (the cost grows like the Bell numbers in the
+                    # number of symbolic triples)
+                    if di == 1:
+                        continue
+                    data = [("p", view, "L")]
                 nsym = 2 * len(data) + 2 * sum(1 for o in ops if o[0] in ("add", "rm"))
                 sig = [("x%d" % i, "i") for i in range(nsym)]
                 tag = "%s/%s/%s" % (name, view, ",".join("%s@%s%s" % x for x in data))
@@ -388,8 +397,8 @@ def bounds(tier):
     return {"read": "endpoint data: 2 symbolic triples over the default graph and one named graph (objects IRIs or falsy-capable literals, by shape); a "
                     "store-backed Graph on the named graph, a ConjunctiveGraph and a Graph carrying the default graph's identifier on the default graph; triples() under all 8 pattern shapes with symbolic "
                     "probe terms, len(), membership, contexts(triple)",
-            "write": "SPARQLUpdateStore with autocommit on, and off followed by commit / rollback / a read: 8 operation sequences (add, remove with 5 "
-                     "pattern shapes, add+remove) on 2 symbolic endpoint triples; after every step the endpoint's graphs equal the model",
+            "write": "SPARQLUpdateStore with autocommit on, and off followed by commit / rollback / a read: 10 operation sequences (add, remove with 5 "
+                     "pattern shapes, add+remove, add-remove-add of one statement) on 2 symbolic endpoint triples; after every step the endpoint's graphs equal the model",
             "outside": "HTTP and result formats, blank nodes, initBindings / query() pass-through, LIMIT/OFFSET/ORDERBY attributes, add_graph / "
                        "remove_graph, update() with user text (_insert_named_graph), more than 2 endpoint triples or 2 writes"}
 
